@@ -1,6 +1,6 @@
 (** Case evaluation for the C10 correspondence on the project-load family (Project.buildList after Load, with the
     cache entries of some keys unreadable or out of reach) and on the repository lookup. *)
-From Dawn Require Import Mvs.Run Mvs.Load Mvs.Locate.
+From Dawn Require Import Mvs.Run Mvs.Load Mvs.Locate Mvs.LoadRoot.
 
 Definition check_c10_load (U : universe) (root : config) (keys : list node) (exp : outcome (list (str * version))) : bool :=
   let fuel := u_fuel U (map snd root) in
@@ -15,3 +15,41 @@ Definition mismatches_c10_load
   flat_map (fun g => map fst (filter (fun c => negb (check_c10_load (fst g) (fst (snd c)) (fst (snd (snd c)))
                                                                     (snd (snd (snd c))))) (snd g)))
            groups.
+
+(** ** the same with the root project's two configuration files (Mvs/LoadRoot.v): [None] = the file is not there,
+    [Some None] = it is there and is not a configuration, [Some (Some c)] = a configuration with requirements c *)
+Definition root_file_of (x : option (option config)) : root_file :=
+  match x with
+  | None => RMissing
+  | Some None => RUnreadable
+  | Some (Some c) => RConfig c
+  end.
+
+Definition file_result_matches (r : file_result) (exp : outcome (list (str * version))) : bool :=
+  match r, exp with
+  | FOk l, Ok l' => list_eqb node_eqb l l'
+  | FErr _, Err => true
+  | FPanic, Panic => true
+  | FHang, OutOfFuel => true
+  | _, _ => false
+  end.
+
+Definition reqs_of (x : option (option config)) : list node :=
+  match x with Some (Some c) => map snd c | _ => [] end.
+
+(** [ne]: the failure of the damaged entries is a "does not exist" (their configuration files are gone) *)
+Definition check_c10_load_root (U : universe) (toml dot : option (option config)) (keys : list node) (ne : bool)
+  (exp : outcome (list (str * version))) : bool :=
+  let fuel := u_fuel U (reqs_of toml ++ reqs_of dot) in
+  let obs := obs_damaged U keys in
+  let run pick := load_config_loop obs (fun _ => ne) pick fuel (root_file_of toml) (root_file_of dot) in
+  file_result_matches (run pick_fifo) exp && file_result_matches (run pick_lifo) exp && file_result_matches (run pick_mid) exp.
+
+(** groups: a universe with its cases (id, ((dawn.toml, .dawnconfig), (damaged cache keys, (ne, Project.buildList or failure)))) *)
+Definition mismatches_c10_load_root
+  (groups : list (universe * list (N * ((option (option config) * option (option config))
+                                        * (list node * (bool * outcome (list (str * version)))))))) : list N :=
+  flat_map (fun g => map fst (filter (fun c =>
+              let files := fst (snd c) in let rest := snd (snd c) in
+              negb (check_c10_load_root (fst g) (fst files) (snd files) (fst rest) (fst (snd rest)) (snd (snd rest))))
+              (snd g))) groups.
